@@ -24,7 +24,9 @@ Shapes ==
   \cup { Sh("commitments", n, 0, NoSnapShape) : n \in {0, 1, 2, 3} \cup (IF Big THEN {1024} ELSE {}) }
   \cup { Sh("announce", 0, 0, s) : s \in SnapShapes }
   \cup { Sh("final", 0, 0, s) : s \in SnapShapes }
-  \cup { Sh("commitment", n, 0, NoSnapShape) : n \in {0, 1, 3} }
+  \* m = 1: the commitment point's encoding ends in a zero byte (a message cut one byte short
+  \* still shows a valid point to a parser that copies into a zeroed field)
+  \cup { Sh("commitment", n, m, NoSnapShape) : n \in {0, 1, 3}, m \in {0, 1} }
   \cup { Sh("fullchallenge", n, m, s) : n \in {0, 1, 2}, m \in {0, 1}, s \in SnapShapes }
   \cup { Sh("relay", n, 0, NoSnapShape) : n \in {0, 33, 100} }
   \cup { Sh("consumers", n, 0, NoSnapShape) : n \in {0, 1, 2} }
